@@ -26,7 +26,6 @@ from . import gen, regex_tr
 OUT = os.path.join(gen.GEN_DIR, 'Gen_Strop.v')
 SRC_DESC = ('src/nunavut/lang/properties.yaml, lang/_common.py, lang/c/__init__.py, lang/cpp/__init__.py, '
             'lang/py/__init__.py (via the TokenEncoder instances of the working tree)')
-HANDLER_RE = r'^_+([A-Z]?)'
 LANGS = ['c', 'cpp', 'py']
 
 
@@ -35,9 +34,9 @@ class FailClosed(Exception):
 
 
 # ---------------------------------------------------------------------------------------------------
-def dump_config() -> dict:
+def dump_config(overrides: typing.Optional[dict] = None) -> dict:
     p = core.run([core.PY, os.path.join(core.VERIF, 'tools', 'harness', 'c09_impl.py'), 'dump'],
-                 env=core.repo_env(), timeout=300)
+                 env=core.repo_env({'C09_OVERRIDES': json.dumps(overrides)}), timeout=300)
     i = p.stdout.find('{"python"')
     if p.returncode != 0 or i < 0:
         raise FailClosed('configuration dump failed: %s' % p.stdout[-400:].replace('\n', ' | '))
@@ -115,8 +114,15 @@ def _is_call_attr(n, attr, nargs) -> bool:
             and len(n.args) == nargs and not n.keywords)
 
 
+HANDLER_DEFS: typing.Dict[str, typing.Tuple[str, str, str]] = {}   # qualname@file -> (pre, grp, tmpl) as Coq terms
+
+
 def recognise_handler(h: typing.Optional[dict]) -> str:
-    """returns the Coq constructor for the installed handler, or raises FailClosed"""
+    """returns the Coq constructor for the installed handler, or raises FailClosed.  The handler function is TRANSLATED:
+         <m> = re.match(<"pre(grp)">, <stropped>)          -> regex parts as `re` ASTs (regex_tr)
+         if <m>: return <"lit{}{}".format(p1, p2) | f"lit{p1}{p2}">   with pieces m.group(1).lower() | m.group(1) | stropped[m.end():]
+         raise <pending_error>                                 -> template as `list rpiece`
+       (recorded in HANDLER_DEFS; Properties/C09.v states that they are the parts Gen/Strop.v's handler_und was written for)"""
     if h is None:
         return 'HNone'
     path = h.get('file') or ''
@@ -130,10 +136,8 @@ def recognise_handler(h: typing.Optional[dict]) -> str:
         raise FailClosed('handler %s: unexpected signature' % h['qualname'])
     params = [x.arg for x in list(a.posonlyargs) + list(a.args)]
     stropped, pending = params[1], params[3]    # TokenEncoder calls handler(self, stropped, token_type, pending_error)
-    body = list(fn.body)
-    if body and isinstance(body[0], ast.Expr) and isinstance(body[0].value, ast.Constant) and isinstance(body[0].value.value, str):
-        body = body[1:]
-    why = 'handler %s is not the modelled `re.match(r"^_+([A-Z]?)", s)` rewrite' % h['qualname']
+    body = _strip_doc(fn.body)
+    why = 'handler %s is outside the translated subset' % h['qualname']
     if len(body) != 3:
         raise FailClosed(why + ' (statement count)')
     s0, s1, s2 = body
@@ -142,31 +146,60 @@ def recognise_handler(h: typing.Optional[dict]) -> str:
     m = s0.targets[0].id
     c = s0.value
     if not (_is_call_attr(c, 'match', 2) and _is_name(c.func.value, 're') and isinstance(c.args[0], ast.Constant)
-            and c.args[0].value == HANDLER_RE and _is_name(c.args[1], stropped)):
-        raise FailClosed(why + ' (regular expression or its subject)')
+            and isinstance(c.args[0].value, str) and _is_name(c.args[1], stropped)):
+        raise FailClosed(why + ' (m = re.match("<pattern>", stropped))')
+    pat = c.args[0].value
+    import re as _re
+    sp = _re.fullmatch(r'([^()]*)\(([^()?][^()]*|)\)', pat)
+    if not sp:
+        raise FailClosed(why + ' (pattern %r is not <prefix>(<one capturing group at the end>))' % pat)
+    try:
+        pre = regex_tr.to_coq(regex_tr.parse(sp.group(1)))
+        grp = regex_tr.to_coq(regex_tr.parse(sp.group(2)))
+    except regex_tr.Unsupported as ex:
+        raise FailClosed(why + ' (pattern %r outside the translated regex subset: %s)' % (pat, ex))
     if not (isinstance(s1, ast.If) and _is_name(s1.test, m) and not s1.orelse and len(s1.body) == 1
             and isinstance(s1.body[0], ast.Return) and s1.body[0].value is not None):
         raise FailClosed(why + ' (if m: return ...)')
     r = s1.body[0].value
-    if _is_call_attr(r, 'format', 2) and isinstance(r.func.value, ast.Constant) and r.func.value.value == '_{}{}':
-        p1, p2 = r.args
-    elif (isinstance(r, ast.JoinedStr) and len(r.values) == 3 and isinstance(r.values[0], ast.Constant)
-          and r.values[0].value == '_' and all(isinstance(v, ast.FormattedValue) and v.conversion == -1 and v.format_spec is None
-                                               for v in r.values[1:])):
-        p1, p2 = r.values[1].value, r.values[2].value
+    pieces: typing.List[typing.Any] = []
+    if _is_call_attr(r, 'format', len(r.args) if isinstance(r, ast.Call) else 0) and isinstance(r.func.value, ast.Constant) \
+            and isinstance(r.func.value.value, str):
+        lits = r.func.value.value.split('{}')
+        if len(lits) != len(r.args) + 1 or '{' in ''.join(lits) or '}' in ''.join(lits):
+            raise FailClosed(why + ' (format string)')
+        for i, arg in enumerate(r.args):
+            pieces += [lits[i], arg]
+        pieces.append(lits[-1])
+    elif isinstance(r, ast.JoinedStr):
+        for v in r.values:
+            if isinstance(v, ast.Constant) and isinstance(v.value, str):
+                pieces.append(v.value)
+            elif isinstance(v, ast.FormattedValue) and v.conversion == -1 and v.format_spec is None:
+                pieces.append(v.value)
+            else:
+                raise FailClosed(why + ' (f-string piece)')
     else:
         raise FailClosed(why + ' (returned expression)')
-    # p1 = m.group(1).lower()
-    ok1 = (_is_call_attr(p1, 'lower', 0) and _is_call_attr(p1.func.value, 'group', 1) and _is_name(p1.func.value.func.value, m)
-           and isinstance(p1.func.value.args[0], ast.Constant) and p1.func.value.args[0].value == 1)
-    # p2 = stropped[m.end():]
-    ok2 = (isinstance(p2, ast.Subscript) and _is_name(p2.value, stropped) and isinstance(p2.slice, ast.Slice)
-           and p2.slice.upper is None and p2.slice.step is None and _is_call_attr(p2.slice.lower, 'end', 0)
-           and _is_name(p2.slice.lower.func.value, m))
-    if not (ok1 and ok2):
-        raise FailClosed(why + ' (pieces of the returned string)')
+    tmpl = []
+    for p in pieces:
+        if isinstance(p, str):
+            if p:
+                tmpl.append('RLit %s' % _cstr(p))
+        elif (_is_call_attr(p, 'lower', 0) and _is_call_attr(p.func.value, 'group', 1) and _is_name(p.func.value.func.value, m)
+              and isinstance(p.func.value.args[0], ast.Constant) and p.func.value.args[0].value == 1):
+            tmpl.append('RGroupLower')
+        elif (_is_call_attr(p, 'group', 1) and _is_name(p.func.value, m) and isinstance(p.args[0], ast.Constant) and p.args[0].value == 1):
+            tmpl.append('RGroup')
+        elif (isinstance(p, ast.Subscript) and _is_name(p.value, stropped) and isinstance(p.slice, ast.Slice)
+              and p.slice.upper is None and p.slice.step is None and _is_call_attr(p.slice.lower, 'end', 0)
+              and _is_name(p.slice.lower.func.value, m)):
+            tmpl.append('RRest')
+        else:
+            raise FailClosed(why + ' (piece of the returned string)')
     if not (isinstance(s2, ast.Raise) and _is_name(s2.exc, pending) and s2.cause is None):
         raise FailClosed(why + ' (raise pending_error)')
+    HANDLER_DEFS['%s@%s' % (h['qualname'], os.path.relpath(path, core.REPO))] = (pre, grp, '[%s]' % '; '.join(tmpl))
     return 'HUnd'
 
 
@@ -239,6 +272,131 @@ def strop_reverifies() -> bool:
     return True
 
 
+XFORMS = {'_encode': 'XEncode', '_strop_by_keyword': 'XKeyword', '_strop_by_pattern': 'XPattern'}
+HSELS = {'_stropping_failure_handler': 'HStropping', '_encoding_failure_handler': 'HEncoding'}
+
+
+def _self_attr(n, table) -> typing.Optional[str]:
+    if isinstance(n, ast.Attribute) and _is_name(n.value, 'self') and n.attr in table:
+        return table[n.attr]
+    return None
+
+
+def _do_for_call(c, cur: str, ty: str, dry: bool) -> typing.Optional[str]:
+    """c is self._do_for_type_and_all(self.<x>, cur, ty, <dry>) -> the Coq constructor of <x>"""
+    if not (isinstance(c, ast.Call) and isinstance(c.func, ast.Attribute) and c.func.attr == '_do_for_type_and_all'
+            and _is_name(c.func.value, 'self') and not c.keywords and len(c.args) == 4):
+        return None
+    x = _self_attr(c.args[0], XFORMS)
+    if x is None or not _is_name(c.args[1], cur) or not _is_name(c.args[2], ty):
+        return None
+    if not (isinstance(c.args[3], ast.Constant) and c.args[3].value is dry):
+        return None
+    return x
+
+
+def strop_pipeline() -> typing.List[str]:
+    """TokenEncoder.strop, statement by statement, as a list of Coq `pstep` terms (meaning: Gen/Strop.v run_pipeline).
+    Supported statements, in this order (anything else fails closed):
+       L = <token_type>.lower()
+       if L == "all": raise ValueError(...)
+       ( v = self._do_for_type_and_all(self.<x>, cur, L, False)                                  -> PApply x   ; cur := v
+       | try: self._do_for_type_and_all(self.<x>, cur, L, True)
+         except RuntimeError as e:
+             if self.<h> is None: raise e
+             cur = self.<h>(self, cur, <token_type>, e)                                            -> PCheck x h
+       )*
+       return cur   |   return self.<m>(cur, L)  with <m> = dry checks + `return <token>`          -> PReverify [x...]
+    where cur is the variable assigned by the previous step (initially the parameter `token`)."""
+    cls = _token_encoder_class()
+    methods = {f.name: f for f in cls.body if isinstance(f, ast.FunctionDef)}
+    fn = methods.get('strop')
+    if fn is None:
+        raise FailClosed('TokenEncoder.strop not found')
+    a = fn.args
+    if a.vararg or a.kwarg or a.kwonlyargs or len(a.posonlyargs) + len(a.args) != 3:
+        raise FailClosed('TokenEncoder.strop: unexpected signature')
+    _, p_tok, p_ty = [x.arg for x in list(a.posonlyargs) + list(a.args)]
+    if len(a.defaults) != 1 or not (isinstance(a.defaults[0], ast.Constant) and a.defaults[0].value == 'any'):
+        raise FailClosed('TokenEncoder.strop: the default identifier type is not "any"')
+    body = _strip_doc(fn.body)
+    if len(body) < 3:
+        raise FailClosed('TokenEncoder.strop: body too short')
+    s0, s1 = body[0], body[1]
+    if not (isinstance(s0, ast.Assign) and len(s0.targets) == 1 and isinstance(s0.targets[0], ast.Name)
+            and _is_call_attr(s0.value, 'lower', 0) and _is_name(s0.value.func.value, p_ty)):
+        raise FailClosed('TokenEncoder.strop: first statement is not `<v> = token_type.lower()`')
+    ty = s0.targets[0].id
+    if not (isinstance(s1, ast.If) and not s1.orelse and isinstance(s1.test, ast.Compare) and _is_name(s1.test.left, ty)
+            and len(s1.test.ops) == 1 and isinstance(s1.test.ops[0], ast.Eq) and isinstance(s1.test.comparators[0], ast.Constant)
+            and s1.test.comparators[0].value == 'all' and len(s1.body) == 1 and isinstance(s1.body[0], ast.Raise)
+            and isinstance(s1.body[0].exc, ast.Call) and _is_name(s1.body[0].exc.func, 'ValueError')):
+        raise FailClosed('TokenEncoder.strop: second statement is not `if <type_lower> == "all": raise ValueError(...)`')
+    steps: typing.List[str] = []
+    cur = p_tok
+    for st in body[2:-1]:
+        if isinstance(st, ast.Assign) and len(st.targets) == 1 and isinstance(st.targets[0], ast.Name):
+            x = _do_for_call(st.value, cur, ty, False)
+            if x is None:
+                raise FailClosed('TokenEncoder.strop line %d: not `v = self._do_for_type_and_all(self.<transform>, %s, %s, False)`'
+                                 % (st.lineno, cur, ty))
+            steps.append('PApply %s' % x)
+            cur = st.targets[0].id
+        elif isinstance(st, ast.Try):
+            why = 'TokenEncoder.strop line %d: try statement is not the modelled guarded dry-run check' % st.lineno
+            if st.orelse or st.finalbody or len(st.body) != 1 or len(st.handlers) != 1 or not isinstance(st.body[0], ast.Expr):
+                raise FailClosed(why)
+            x = _do_for_call(st.body[0].value, cur, ty, True)
+            h = st.handlers[0]
+            if x is None or not _is_name(h.type, 'RuntimeError') or not h.name or len(h.body) != 2:
+                raise FailClosed(why)
+            i0, a0 = h.body
+            hs = None
+            if (isinstance(i0, ast.If) and not i0.orelse and isinstance(i0.test, ast.Compare) and len(i0.test.ops) == 1
+                    and isinstance(i0.test.ops[0], ast.Is) and isinstance(i0.test.comparators[0], ast.Constant)
+                    and i0.test.comparators[0].value is None and len(i0.body) == 1 and isinstance(i0.body[0], ast.Raise)
+                    and _is_name(i0.body[0].exc, h.name) and i0.body[0].cause is None):
+                hs = _self_attr(i0.test.left, HSELS)
+            if hs is None:
+                raise FailClosed(why + ' (`if self.<handler> is None: raise <e>`)')
+            c = a0.value if isinstance(a0, ast.Assign) and len(a0.targets) == 1 and _is_name(a0.targets[0], cur) else None
+            if not (isinstance(c, ast.Call) and _self_attr(c.func, HSELS) == hs and not c.keywords and len(c.args) == 4
+                    and _is_name(c.args[0], 'self') and _is_name(c.args[1], cur) and _is_name(c.args[2], p_ty)
+                    and _is_name(c.args[3], h.name)):
+                raise FailClosed(why + ' (`%s = self.<same handler>(self, %s, %s, <e>)`)' % (cur, cur, p_ty))
+            steps.append('PCheck %s %s' % (x, hs))
+        else:
+            raise FailClosed('TokenEncoder.strop line %d: statement outside the translated subset' % st.lineno)
+    last = body[-1]
+    if not isinstance(last, ast.Return) or last.value is None or any(isinstance(n, ast.Return) for st in body[:-1] for n in ast.walk(st)):
+        raise FailClosed('TokenEncoder.strop: expected exactly one return, as the last statement')
+    v = last.value
+    if _is_name(v, cur):
+        return steps
+    if not (isinstance(v, ast.Call) and isinstance(v.func, ast.Attribute) and _is_name(v.func.value, 'self') and not v.keywords
+            and len(v.args) == 2 and _is_name(v.args[0], cur) and _is_name(v.args[1], ty)):
+        raise FailClosed('TokenEncoder.strop: returns neither `%s` nor self.<method>(%s, %s)' % (cur, cur, ty))
+    m = methods.get(v.func.attr)
+    why = 'TokenEncoder.%s is not the modelled final re-verification' % v.func.attr
+    if m is None:
+        raise FailClosed(why + ' (method not found)')
+    ma = m.args
+    if ma.vararg or ma.kwarg or ma.kwonlyargs or ma.defaults or len(ma.posonlyargs) + len(ma.args) != 3 or m.decorator_list:
+        raise FailClosed(why + ' (signature)')
+    _, q_tok, q_ty = [x.arg for x in list(ma.posonlyargs) + list(ma.args)]
+    mbody = _strip_doc(m.body)
+    if not mbody or not (isinstance(mbody[-1], ast.Return) and _is_name(mbody[-1].value, q_tok)):
+        raise FailClosed(why + ' (does not end in `return <token>`)')
+    xs = []
+    for st in mbody[:-1]:
+        x = _do_for_call(st.value, q_tok, q_ty, True) if isinstance(st, ast.Expr) else None
+        if x is None:
+            raise FailClosed(why + ' (statement is not self._do_for_type_and_all(self.<check>, token, type, True))')
+        xs.append(x)
+    steps.append('PReverify [%s]' % '; '.join(xs))
+    return steps
+
+
 def lru_maxsize() -> typing.Optional[int]:
     """functools.lru_cache(maxsize=N) on TokenEncoder.strop, read with ast; None when strop is not cached"""
     tree = gen.parse_repo('src/nunavut/lang/_common.py')
@@ -277,7 +435,13 @@ def build_text(doc: dict) -> str:
         raise FailClosed('keyword.kwlist dump malformed')
     parts.append('(* keyword.kwlist of the interpreter that runs nunavut *)\n' + _str_list('py_kwlist', kw))
     ms = lru_maxsize()
-    reverify = strop_reverifies()
+    HANDLER_DEFS.clear()
+    steps = strop_pipeline()
+    reverify = any(st.startswith('PReverify') for st in steps)
+    if reverify != strop_reverifies():
+        raise FailClosed('the two readings of the return statement of TokenEncoder.strop disagree')
+    parts.append('(* the statements of TokenEncoder.strop, in order (walker: gen_c09.strop_pipeline; meaning: Strop.run_pipeline) *)\n'
+                 'Definition strop_pipeline : list pstep :=\n  [%s].\n' % ';\n   '.join(steps))
     parts.append('(* does TokenEncoder.strop re-verify the token it returns (read with ast)? *)\n'
                  'Definition strop_reverifies : bool := %s.\n' % ('true' if reverify else 'false'))
     # independent oracle for Python's reserved names: keyword.kwlist + dir(builtins) of the interpreter that runs nunavut,
@@ -289,48 +453,85 @@ def build_text(doc: dict) -> str:
     parts.append('(* functools.lru_cache on TokenEncoder.strop: %s *)\nDefinition strop_lru_maxsize : option nat := %s.\n'
                  % ('maxsize=%d' % ms if ms is not None else 'absent', 'Some %d%%nat' % ms if ms is not None else 'None'))
     for ln in LANGS:
+        _emit_cfg(parts, ln, ln, doc['langs'][ln], reverify, None)
         c = doc['langs'][ln]
-        if not c['enable_stropping']:
-            raise FailClosed('%s: enable_stropping is off by default (the filters would bypass the encoder)' % ln)
-        res = c['reserved']
-        if not all(isinstance(w, str) for w in res):
-            raise FailClosed('%s: reserved_identifiers contains a non-string entry %r' % (ln, [w for w in res if not isinstance(w, str)][:1]))
-        for k in ('prefix', 'suffix', 'enc_prefix'):
-            if not isinstance(c[k], str):
-                raise FailClosed('%s: %s is not a string: %r' % (ln, k, c[k]))
-        if not (c['ws_char'] is None or isinstance(c['ws_char'], str)):
-            raise FailClosed('%s: whitespace_encoding_char is not a string: %r' % (ln, c['ws_char']))
-        if not isinstance(c['collapse'], bool):
-            raise FailClosed('%s: collapse flag is not a bool' % ln)
-        defs: typing.List[str] = []
-        parts.append('(* ' + '=' * 30 + ' %s (%s) ' % (ln, c['language_class']) + '=' * 30 + ' *)')
-        parts.append(_str_list('%s_reserved' % ln, res))
-        pm = _pmap(ln, 'pat', c['patterns'], False, defs)
-        rm = _pmap(ln, 'rule', c['rules'], True, defs)
-        parts.extend(defs)
-        hs = recognise_handler(c['strop_handler'])
-        he = recognise_handler(c['enc_handler'])
-        ws = 'None' if c['ws_char'] is None else 'Some %s' % _cstr(c['ws_char'])
-        parts.append(
-            'Definition cfg_%s : strop_cfg := {|\n'
-            '  sc_reserved := %s_reserved;\n'
-            '  sc_patterns :=\n    %s;\n'
-            '  sc_rules :=\n    %s;\n'
-            '  sc_prefix := %s; (* %s *)\n'
-            '  sc_suffix := %s; (* %s *)\n'
-            '  sc_enc_prefix := %s; (* %s *)\n'
-            '  sc_ws_char := %s;\n'
-            '  sc_collapse := %s;\n'
-            '  sc_strop_handler := %s; (* %s *)\n'
-            '  sc_enc_handler := %s; (* %s *)\n'
-            '  sc_reverify := %s\n|}.\n'
-            % (ln, ln, pm, rm, _cstr(c['prefix']), _comment(repr(c['prefix'])), _cstr(c['suffix']), _comment(repr(c['suffix'])),
-               _cstr(c['enc_prefix']), _comment(repr(c['enc_prefix'])), ws, 'true' if c['collapse'] else 'false',
-               hs, _comment(str((c['strop_handler'] or {}).get('qualname'))), he, _comment(str((c['enc_handler'] or {}).get('qualname'))),
-               'true' if reverify else 'false'))
         types = sorted(set(c['patterns']) | set(c['rules']))
         parts.append('(* identifier types the language configures (keys of the two maps) *)\n' + _str_list('%s_id_types' % ln, types))
+    # configuration overrides the correspondence run exercises (tools/checks/c09.py uses the same list): the effective
+    # TokenEncoder attributes under each override, as data for the same model
+    rows = []
+    for k, ov in enumerate(OVERRIDE_CONFIGS):
+        odoc = dump_config(ov)
+        parts.append('(* ' + '#' * 20 + ' override %d: %s ' % (k, _comment(json.dumps(ov, sort_keys=True))) + '#' * 20 + ' *)')
+        for ln in LANGS:
+            _emit_cfg(parts, '%s_ov%d' % (ln, k), ln, odoc['langs'][ln], reverify, doc['langs'][ln])
+        rows.append('(%s)' % ', '.join('cfg_%s_ov%d' % (ln, k) for ln in LANGS))
+    hrows = []
+    for i, (key, (pre, grp, tmpl)) in enumerate(sorted(HANDLER_DEFS.items())):
+        parts.append('(* failure handler %s, translated *)\nDefinition handler%d_pre : re :=\n  %s.\nDefinition handler%d_grp : re :=\n  %s.\n'
+                     'Definition handler%d_tmpl : list rpiece := %s.\n' % (_comment(key), i, pre, i, grp, i, tmpl))
+        hrows.append('(handler%d_pre, handler%d_grp, handler%d_tmpl)' % (i, i, i))
+    parts.append('(* every failure handler a TokenEncoder of c, cpp, py has installed (kind HUnd in the records above) *)\n'
+                 'Definition handlers_translated : list (re * re * list rpiece) :=\n  [%s].\n' % ';\n   '.join(hrows))
+    parts.append('Definition cfgs_ov : list (strop_cfg * strop_cfg * strop_cfg) :=\n  [%s].\n' % ';\n   '.join(rows))
     return '\n'.join(parts)
+
+
+OVERRIDE_CONFIGS = [
+    {'stropping_prefix': '_pre_', 'stropping_suffix': '_post_'},
+    {'encoding_prefix': '_u'},
+    {'reserved_identifiers': ['foo', 'a', '_a', 'zX0031']},
+    {'reserved_identifiers': ['foo', 'if', 'zX0031', 'a_']},
+    {'whitespace_encoding_char': 'W'},
+    {'reserved_token_patterns_by_type': {'all': ['^x[0-9]', '^\\d{1}', '^_[A-Z]'], 'macro': ['^[A-Z]+$']},
+     'token_encoding_rules_by_identifier_type': {'all': ['\\s+', '[^a-zA-Z0-9_]+']}},
+]
+
+
+def _emit_cfg(parts: typing.List[str], name: str, ln: str, c: dict, reverify: bool, base: typing.Optional[dict]) -> None:
+    """definitions for one effective configuration; with `base`, fields equal to the base configuration reuse its definitions"""
+    if not c['enable_stropping']:
+        raise FailClosed('%s: enable_stropping is off by default (the filters would bypass the encoder)' % name)
+    res = c['reserved']
+    if not all(isinstance(w, str) for w in res):
+        raise FailClosed('%s: reserved_identifiers contains a non-string entry %r' % (name, [w for w in res if not isinstance(w, str)][:1]))
+    for k in ('prefix', 'suffix', 'enc_prefix'):
+        if not isinstance(c[k], str):
+            raise FailClosed('%s: %s is not a string: %r' % (name, k, c[k]))
+    if not (c['ws_char'] is None or isinstance(c['ws_char'], str)):
+        raise FailClosed('%s: whitespace_encoding_char is not a string: %r' % (name, c['ws_char']))
+    if not isinstance(c['collapse'], bool):
+        raise FailClosed('%s: collapse flag is not a bool' % name)
+    defs: typing.List[str] = []
+    parts.append('(* ' + '=' * 30 + ' %s (%s) ' % (name, c['language_class']) + '=' * 30 + ' *)')
+    if base is not None and res == base['reserved']:
+        res_name = '%s_reserved' % ln
+    else:
+        res_name = '%s_reserved' % name
+        parts.append(_str_list(res_name, res))
+    pm = 'sc_patterns cfg_%s' % ln if base is not None and c['patterns'] == base['patterns'] else _pmap(name, 'pat', c['patterns'], False, defs)
+    rm = 'sc_rules cfg_%s' % ln if base is not None and c['rules'] == base['rules'] else _pmap(name, 'rule', c['rules'], True, defs)
+    parts.extend(defs)
+    hs = recognise_handler(c['strop_handler'])
+    he = recognise_handler(c['enc_handler'])
+    ws = 'None' if c['ws_char'] is None else 'Some %s' % _cstr(c['ws_char'])
+    parts.append(
+        'Definition cfg_%s : strop_cfg := {|\n'
+        '  sc_reserved := %s;\n'
+        '  sc_patterns :=\n    %s;\n'
+        '  sc_rules :=\n    %s;\n'
+        '  sc_prefix := %s; (* %s *)\n'
+        '  sc_suffix := %s; (* %s *)\n'
+        '  sc_enc_prefix := %s; (* %s *)\n'
+        '  sc_ws_char := %s;\n'
+        '  sc_collapse := %s;\n'
+        '  sc_strop_handler := %s; (* %s *)\n'
+        '  sc_enc_handler := %s; (* %s *)\n'
+        '  sc_reverify := %s\n|}.\n'
+        % (name, res_name, pm, rm, _cstr(c['prefix']), _comment(repr(c['prefix'])), _cstr(c['suffix']), _comment(repr(c['suffix'])),
+           _cstr(c['enc_prefix']), _comment(repr(c['enc_prefix'])), ws, 'true' if c['collapse'] else 'false',
+           hs, _comment(str((c['strop_handler'] or {}).get('qualname'))), he, _comment(str((c['enc_handler'] or {}).get('qualname'))),
+           'true' if reverify else 'false'))
 
 
 def gen_strop() -> typing.Tuple[bool, str]:
@@ -345,4 +546,31 @@ def gen_strop() -> typing.Tuple[bool, str]:
     return True, 'ok'
 
 
-GENERATORS = {'strop': gen_strop}
+# ---------------------------------------------------------------------------------------------------
+# shape pin of the methods around the pipeline that are hand-modelled in Gen/Strop.v (one shape each)
+# ---------------------------------------------------------------------------------------------------
+PINNED = [('src/nunavut/lang/_common.py', 'TokenEncoder.__init__'),
+          ('src/nunavut/lang/_common.py', 'TokenEncoder._encoding_filter'),
+          ('src/nunavut/lang/_common.py', 'TokenEncoder._matches'),
+          ('src/nunavut/lang/_common.py', 'TokenEncoder._encode'),
+          ('src/nunavut/lang/_common.py', 'TokenEncoder._strop_by_keyword'),
+          ('src/nunavut/lang/_common.py', 'TokenEncoder._strop_by_pattern'),
+          ('src/nunavut/lang/_common.py', 'TokenEncoder._do_for_type_and_all'),
+          ('src/nunavut/lang/_common.py', 'TokenEncoder.encode_character'),
+          ('src/nunavut/lang/_common.py', 'TokenEncoder._get_map_of_type_to_lists_of_patterns'),
+          ('src/nunavut/lang/_language.py', 'Language.default_filter_id_for_target'),
+          ('src/nunavut/lang/_language.py', 'Language.filter_short_reference_name'),
+          ('src/nunavut/lang/c/__init__.py', 'Language.filter_id'),
+          ('src/nunavut/lang/c/__init__.py', 'Language._token_encoder'),
+          ('src/nunavut/lang/cpp/__init__.py', 'Language.filter_id'),
+          ('src/nunavut/lang/cpp/__init__.py', 'Language._token_encoder'),
+          ('src/nunavut/lang/py/__init__.py', 'Language.filter_id'),
+          ('src/nunavut/lang/py/__init__.py', 'Language._token_encoder')]
+
+
+def pin_strop_methods() -> typing.Tuple[bool, str]:
+    from . import shape_pin
+    return shape_pin.check_pin('strop_methods', PINNED)
+
+
+GENERATORS = {'strop': gen_strop, 'pin_strop_methods': pin_strop_methods}
